@@ -69,15 +69,19 @@ def _interval(rng, klass):
     raise ValueError(klass)
 
 
-def _rectangle(rng, d, finite_activity=()):
+def _rectangle(rng, d, finite_activity=(), axis_mass_with_infinite_activity=False):
     while True:
         ks = [str(rng.choice(["pos", "neg", "straddle", "right-inf", "left-inf", "whole"], p=[0.25, 0.25, 0.2, 0.1, 0.1, 0.1])) for _ in range(d)]
         if sum(1 for k in ks if k in ("straddle", "whole")) <= d - 1:
             break
     for k in range(d):
         # (0, c]: lower end point exactly at 0 -- unambiguous (and finite) when the margin has finite activity
-        if k < len(finite_activity) and finite_activity[k] and ks[k] == "pos" and rng.random() < 0.4:
-            ks[k] = "from-0"
+        if k < len(finite_activity) and ks[k] == "pos" and rng.random() < (0.4 if finite_activity[k] else 0.15):
+            # infinite activity: the mass is finite as soon as another coordinate stays away from 0
+            # (with independent components the axes carry mass and U(0+) = inf cannot tell (0, c] from [0, c]: a convention)
+            if finite_activity[k] or (not axis_mass_with_infinite_activity and
+                                      any(ks[j] in ("pos", "neg", "right-inf", "left-inf") for j in range(d) if j != k)):
+                ks[k] = "from-0"
     ab = [_interval(rng, k) for k in ks]
     return ks, [x[0] for x in ab], [x[1] for x in ab]
 
@@ -99,7 +103,7 @@ def run_case(case, R):
     finite = [ms["family"] in ("HEM", "MERTON") or (ms["family"] == "CGMY" and ms["params"]["y"] < 0) for ms in cm["margins"]]
     log = []
     for r in range(30):
-        ks, a, b = _rectangle(rng, d, finite)
+        ks, a, b = _rectangle(rng, d, finite, cm["copula"]["kind"] == "independent")
         R.hit("rectangles")
         if "from-0" in ks:
             R.hit("rectangles_starting_at_0")
@@ -112,8 +116,12 @@ def run_case(case, R):
             R.violation(f"mass-raises-{d}d", f"{label}: mass({a}, {b}) raises {type(exc).__name__}: {exc}", wit)
             continue
         want = oracle.mass(a, b)
+        if not (math.isfinite(got) and math.isfinite(gen)):
+            R.violation(f"mass-not-finite-{d}d" + ("-end-point-at-0" if "from-0" in ks else ""), f"{label}: mass({a}, {b}) = {got!r} (general formula {gen!r}) for a "
+                        f"rectangle of finite mass {want!r} (pattern {pat})", wit)
+            continue
         # cancellation scale: tail-integral magnitudes at the finite end points
-        scale = sum(abs(oracle.U(k, x)) for k in range(d) for x in (a[k], b[k]) if math.isfinite(x)) + abs(want)
+        scale = sum(abs(oracle.U(k, x)) for k in range(d) for x in (a[k], b[k]) if math.isfinite(x) and math.isfinite(oracle.U(k, x))) + abs(want)
         tol = 1e-9 * scale + 1e-7 * abs(want) + 100 * oracle.max_err + floor
         R.hit("fast_vs_general")
         if abs(got - gen) > 1e-10 * scale + 1e-9 * abs(gen):
@@ -141,6 +149,10 @@ def run_case(case, R):
                 p1, p2 = float(model.mass(a, b1)), float(model.mass(a2, b))
                 s = p1 + p2
                 R.hit("additivity_checks")
+                if not math.isfinite(s):
+                    R.violation(f"mass-not-finite-{d}d" + ("-end-point-at-0" if c == 0.0 else ""), f"{label}: the pieces of ({a}, {b}] split at x_{k} = {c} "
+                                f"have masses {p1!r} and {p2!r}", wit)
+                    continue
                 for (pa, pb, pv) in ((a, b1, p1), (a2, b, p2)):
                     if c == 0.0:
                         break     # which piece owns the axis x_k = 0 is a convention the property does not fix
@@ -155,7 +167,7 @@ def run_case(case, R):
                 R.violation(f"mass-raises-{d}d", f"{label}: mass of a piece raises {type(exc).__name__}: {exc}", wit)
         # whole line in all other coordinates = marginal mass
         k = int(rng.integers(d))
-        if ks[k] in ("pos", "neg", "right-inf", "left-inf", "from-0"):
+        if ks[k] in ("pos", "neg", "right-inf", "left-inf") or (ks[k] == "from-0" and finite[k]):
             aw, bw = [-math.inf] * d, [math.inf] * d
             aw[k], bw[k] = a[k], b[k]
             R.hit("margin_checks")
@@ -170,12 +182,12 @@ def run_case(case, R):
         else:
             idx = [int(rng.integers(2))]
         ai, bi = [a[i] for i in idx], [b[i] for i in idx]
-        if not all(x < 0 < y for x, y in zip(ai, bi)):
+        if not all(x < 0 < y for x, y in zip(ai, bi)) and not any(ks[i] == "from-0" and not finite[i] for i in idx):
             R.hit("subset_checks")
             try:
                 gs = float(model.mass(ai, bi, list(idx)))
                 ws = oracle.mass(ai, bi, list(idx))
-                sc = sum(abs(oracle.U(k2, x)) for k2, x in zip(idx + idx, ai + bi) if math.isfinite(x)) + abs(ws)
+                sc = sum(abs(oracle.U(k2, x)) for k2, x in zip(idx + idx, ai + bi) if math.isfinite(x) and math.isfinite(oracle.U(k2, x))) + abs(ws)
                 if abs(gs - ws) > 1e-9 * sc + 1e-7 * abs(ws) + 100 * oracle.max_err + floor:
                     R.violation(f"subset-mass-not-I-margin-{d}d-{len(idx)}of{d}", f"{label}: mass({ai}, {bi}, indices={idx}) = {gs!r}, "
                                 f"I-margin of the copula at the tail integrals = {ws!r}", wit)
